@@ -5,13 +5,20 @@
    snapshot across every call (Pure), a result object overwritten by its caller changes no argument (scrib events), every call returns what the same call returned when it ran alone
    (SequentialResults; the table of sequential results is built from the sequential pass of the same log,
    where every call is made twice and must agree with itself), and there is no data-race report whose
-   writing access is in library code.  Violating events are listed, the run does not stop at the first. *)
-EXTENDS Integers, Sequences, TLC, Json, IOUtils
+   writing access is in library code.  Under concurrency a snapshot per call would not be atomic: there the log has
+   ONE final snapshot per argument, taken after all goroutines have finished; it must equal the initial one, and
+   (event "end", appended by the orchestrator) EVERY argument of the log must have had its final snapshot - geometries
+   as well as the Bounds / Feature / byte-slice values that travel with them inside the same snapshot.
+   Violating events are listed, the run does not stop at the first. *)
+EXTENDS Integers, Sequences, SequencesExt, TLC, Json, IOUtils
 Trace == ndJsonDeserialize(IOEnv.TRACEFILE)
-VARIABLES i, bad, shared, table, dirty
+VARIABLES i, bad, shared, dirty, finals
 Key(e) == e.op \o "@" \o e.arg
 Has(f, x) == x \in DOMAIN f
-Init == i = 1 /\ bad = 0 /\ shared = <<>> /\ table = <<>> /\ dirty = {}
+\* the table of sequential results: for every (operation, argument) the result of the FIRST sequential call in the log
+\* (a constant of the log - TLC evaluates it once - so it is not carried in the state)
+table == FoldLeft(LAMBDA t, e : IF e.ev = "seq" /\ ~Has(t, Key(e)) THEN (Key(e) :> e.res) @@ t ELSE t, <<>>, Trace)
+Init == i = 1 /\ bad = 0 /\ shared = <<>> /\ dirty = {} /\ finals = {}
 \* Only the call that CAUSES a deviation is blamed: once an argument has been modified (dirty), later calls on
 \* it are not compared any more - their results and snapshots are consequences, not further violations.
 Why(e) ==
@@ -34,8 +41,11 @@ Why(e) ==
          ELSE IF table[Key(e)] # e.res THEN "concurrent-result-differs|" \o e.op
          ELSE "ok"
     [] e.ev = "final" ->
-         IF e.arg \in dirty THEN "ok"
-         ELSE IF Has(shared, e.arg) /\ e.pre = shared[e.arg] THEN "ok" ELSE "argument-modified-under-concurrency"
+         IF ~Has(shared, e.arg) THEN "unknown-argument"
+         ELSE IF e.arg \in dirty THEN "ok"
+         ELSE IF e.pre = shared[e.arg] THEN "ok" ELSE "argument-modified-under-concurrency"
+    [] e.ev = "end" ->        \* the final-snapshot rule has covered every argument of the log
+         IF DOMAIN shared \subseteq finals THEN "ok" ELSE "argument-without-final-snapshot"
     [] e.ev = "race" -> "data-race|" \o e.op
     [] OTHER -> "unknown-event"
 Next == /\ i <= Len(Trace)
@@ -43,7 +53,7 @@ Next == /\ i <= Len(Trace)
            /\ IF w = "ok" THEN TRUE ELSE PrintT(<<"VIOL", ToJson([i |-> i, sig |-> "calls|" \o w, arg |-> e.arg])>>)
            /\ bad' = IF w = "ok" THEN bad ELSE bad + 1
            /\ shared' = IF e.ev = "init" THEN (e.arg :> e.pre) @@ shared ELSE shared
-           /\ table' = IF e.ev = "seq" /\ ~Has(table, Key(e)) THEN (Key(e) :> e.res) @@ table ELSE table
+           /\ finals' = IF e.ev = "final" THEN finals \cup {e.arg} ELSE finals
            /\ dirty' = IF e.ev \in {"seq", "scrib"} /\ Has(shared, e.arg) /\ (e.pre # shared[e.arg] \/ e.post # e.pre) THEN dirty \cup {e.arg} ELSE dirty
         /\ i' = i + 1
 Done == i = Len(Trace) + 1 => PrintT(<<"SUMMARY", ToJson([n |-> Len(Trace), bad |-> bad])>>)
